@@ -307,6 +307,11 @@ func RunWorker(prop string, seed uint64, worker, cases int, scratch, out string,
 		b := (c*2 + r.Intn(100)*2) % 240
 		if prop == "C19" {
 			RunClone(s, r, a, b, bin, base)
+		} else if extra["scen"] == "diskfault" {
+			a = 100 + (propNo*3+worker+25)%100
+			cycles := 1
+			fmt.Sscanf(extra["cycles"], "%d", &cycles)
+			RunDiskFault(s, r, a, b, bin, base, cycles)
 		} else if extra["scen"] == "snaplife" {
 			a = 100 + (propNo*3+worker+50)%100
 			merges := 1
